@@ -231,64 +231,84 @@ def stdioFor (s : PS) (new : Option Fd) (r : Redir) (ans : Option Fd) : PS × Op
       | _, _ => (s.sys (.dup h none), none, true)
     else (s, some h, false)
 
-/-- `os_execute_impl` (posix, JANET_EV), from the redirection table to the process value.  `moves` = the source moves
-    redirection sources that are standard descriptors above 2 (regenerated fact `movesStdSources`). -/
-def osExecute (moves : Bool) (rq : Req) (a : Ans) (t0 : Tab) : Run :=
-  let s : PS := { tab := t0, log := [] }
+/-- everything `os_execute_impl` has computed when it reaches `if (pipe_errflag)` -/
+structure Setup where
+  s : PS
+  inPipe : Bool
+  outPipe : Bool
+  errPipe : Bool
+  p : Plumb
+  tmpIn : Option Fd
+  tmpOut : Option Fd
+  tmpErr : Option Fd
+  err : Bool
+
+/-- the first half of `os_execute_impl`: handle redirections, then the pipes (in, out, err), then the `src_handles` loop -/
+def setup (moves : Bool) (rq : Req) (a : Ans) (t0 : Tab) : Setup :=
+  let s0 : PS := { tab := t0, log := [] }
   let inPipe := rq.isSpawn && rq.rin == .pipe
   let outPipe := rq.isSpawn && rq.rout == .pipe
   let errPipe := rq.isSpawn && rq.rerr == .pipe
-  -- redirections that are handles first, then the pipes
-  let newIn0 := if inPipe then none else rq.rin.handleFd
-  let newOut0 := if outPipe then none else rq.rout.handleFd
   let errIsOut := rq.isSpawn && rq.rerr == .errToOut
-  let newErr0 := if errPipe || errIsOut then none else rq.rerr.handleFd
-  let (s, newIn, pipeIn, e1) := if inPipe then makePipes s 0 true a.pin else (s, newIn0, none, false)
-  let (s, newOut, pipeOut, e2) := if outPipe then makePipes s 1 false a.pout else (s, newOut0, none, false)
-  let (s, newErr, pipeErr, e3) := if errPipe then makePipes s 2 false a.perr else (s, newErr0, none, false)
-  let err := e1 || e2 || e3
+  -- redirections that are handles first, then the pipes
+  let r1 := if inPipe then makePipes s0 0 true a.pin else (s0, rq.rin.handleFd, none, false)
+  let r2 := if outPipe then makePipes r1.1 1 false a.pout else (r1.1, rq.rout.handleFd, none, false)
+  let r3 := if errPipe then makePipes r2.1 2 false a.perr else (r2.1, if errIsOut then none else rq.rerr.handleFd, none, false)
   -- src_handles / tmp_handles
-  let (s, srcIn, tmpIn, err) := moveStd moves s 0 newIn a.tmp0 err
-  let (s, srcOut, tmpOut, err) := moveStd moves s 1 newOut a.tmp1 err
-  let (s, srcErr, tmpErr, err) := moveStd moves s 2 newErr a.tmp2 err
-  if err then
-    let s := ((s.closeOpt tmpIn).closeOpt tmpOut).closeOpt tmpErr
-    let s := ((s.closeOpt pipeIn).closeOpt pipeOut).closeOpt pipeErr
-    let s := if inPipe then s.closeOpt newIn else s
-    let s := if outPipe then s.closeOpt newOut else s
-    let s := if errPipe then s.closeOpt newErr else s
+  let m1 := moveStd moves r3.1 0 r1.2.1 a.tmp0 (r1.2.2.2 || r2.2.2.2 || r3.2.2.2)
+  let m2 := moveStd moves m1.1 1 r2.2.1 a.tmp1 m1.2.2.2
+  let m3 := moveStd moves m2.1 2 r3.2.1 a.tmp2 m2.2.2.2
+  { s := m3.1, inPipe, outPipe, errPipe,
+    p := { pipeIn := r1.2.2.1, pipeOut := r2.2.2.1, pipeErr := r3.2.2.1, newIn := r1.2.1, newOut := r2.2.1, newErr := r3.2.1,
+           srcIn := m1.2.1, srcOut := m2.2.1, srcErr := m3.2.1, errIsOut },
+    tmpIn := m1.2.2.1, tmpOut := m2.2.2.1, tmpErr := m3.2.2.1, err := m3.2.2.2 }
+
+/-- `os_execute_impl` (posix, JANET_EV), from the redirection table to the process value.  `moves` = the source moves
+    redirection sources that are standard descriptors above 2 (regenerated fact `movesStdSources`). -/
+def osExecute (moves : Bool) (rq : Req) (a : Ans) (t0 : Tab) : Run :=
+  let u := setup moves rq a t0
+  let s := u.s
+  let p := u.p
+  if u.err then
+    let s := ((s.closeOpt u.tmpIn).closeOpt u.tmpOut).closeOpt u.tmpErr
+    let s := ((s.closeOpt p.pipeIn).closeOpt p.pipeOut).closeOpt p.pipeErr
+    let s := if u.inPipe then s.closeOpt p.newIn else s
+    let s := if u.outPipe then s.closeOpt p.newOut else s
+    let s := if u.errPipe then s.closeOpt p.newErr else s
     { parent := s.tab, log := s.log.reverse, acts := [], atSpawn := s.tab, plumb := none, res := .pipesFailed }
   else
-  let p : Plumb := { pipeIn, pipeOut, pipeErr, newIn, newOut, newErr, srcIn, srcOut, srcErr, errIsOut }
   let acts := fileActions p
   let atSpawn := s.tab
   let s : PS := { s with log := .spawn a.spawnOk :: (acts.map actSys).reverse ++ s.log }
-  let s := ((s.closeOpt pipeIn).closeOpt pipeOut).closeOpt pipeErr
-  let s := ((s.closeOpt tmpIn).closeOpt tmpOut).closeOpt tmpErr
+  let s := ((s.closeOpt p.pipeIn).closeOpt p.pipeOut).closeOpt p.pipeErr
+  let s := ((s.closeOpt u.tmpIn).closeOpt u.tmpOut).closeOpt u.tmpErr
   if !a.spawnOk then
-    let s := if inPipe then s.closeOpt newIn else s
-    let s := if outPipe then s.closeOpt newOut else s
-    let s := if errPipe then s.closeOpt newErr else s
+    let s := if u.inPipe then s.closeOpt p.newIn else s
+    let s := if u.outPipe then s.closeOpt p.newOut else s
+    let s := if u.errPipe then s.closeOpt p.newErr else s
     { parent := s.tab, log := s.log.reverse, acts, atSpawn, plumb := some p, res := .spawnFailed }
   else if !rq.isSpawn then
     { parent := s.tab, log := s.log.reverse, acts, atSpawn, plumb := some p, res := .ok ⟨false, false, false, none, none, none⟩ }
   else
-  let (s, fIn, bad) := stdioFor s newIn rq.rin a.dupIn
-  if bad then
-    let s := if outPipe then s.closeOpt newOut else s
-    let s := if errPipe then s.closeOpt newErr else s
+  let r1 := stdioFor s p.newIn rq.rin a.dupIn
+  if r1.2.2 then
+    let s := r1.1
+    let s := if u.outPipe then s.closeOpt p.newOut else s
+    let s := if u.errPipe then s.closeOpt p.newErr else s
     { parent := s.tab, log := s.log.reverse, acts, atSpawn, plumb := some p, res := .procFailed }
   else
-  let (s, fOut, bad) := stdioFor s newOut rq.rout a.dupOut
-  if bad then
-    let s := if errPipe then s.closeOpt newErr else s
+  let r2 := stdioFor r1.1 p.newOut rq.rout a.dupOut
+  if r2.2.2 then
+    let s := r2.1
+    let s := if u.errPipe then s.closeOpt p.newErr else s
     { parent := s.tab, log := s.log.reverse, acts, atSpawn, plumb := some p, res := .procFailed }
   else
-  let (s, fErr, bad) := stdioFor s newErr rq.rerr a.dupErr
-  if bad then
-    { parent := s.tab, log := s.log.reverse, acts, atSpawn, plumb := some p, res := .procFailed }
+  let r3 := stdioFor r2.1 p.newErr rq.rerr a.dupErr
+  if r3.2.2 then
+    { parent := r3.1.tab, log := r3.1.log.reverse, acts, atSpawn, plumb := some p, res := .procFailed }
   else
-    { parent := s.tab, log := s.log.reverse, acts, atSpawn, plumb := some p, res := .ok ⟨inPipe, outPipe, errPipe, fIn, fOut, fErr⟩ }
+    { parent := r3.1.tab, log := r3.1.log.reverse, acts, atSpawn, plumb := some p,
+      res := .ok ⟨u.inPipe, u.outPipe, u.errPipe, r1.2.1, r2.2.1, r3.2.1⟩ }
 
 /-- the child's descriptor table when the new program starts (none: a file action failed, the child exits 127) -/
 def Run.child (r : Run) : Option Tab := (runActs r.atSpawn r.acts).map Tab.exec
